@@ -119,4 +119,4 @@ def known_region(desc):
 
 
 if __name__ == '__main__':
-    main()
+    guarded(main)
